@@ -3,20 +3,5 @@ NOTES = ("All checks are property-based tests / fuzzing (rapid v1.3.0, exhaustiv
          "Driver: ./check <ID> [--tier quick|thorough] | --replay <file>. Exit 0 held / 1 VIOLATION / 2 inconclusive. "
          "known_findings.json lists repaired (fixed:) and open findings; open ones print KNOWN-FINDING and their cause class is excluded from generation.")
 NOT_APPLICABLE = {}
-TEXTS = {
- "C01": {
-  "technique": "model-based stateful property testing (rapid): generated op histories vs. reference tree model, whole-tree comparison after every step, snapshot/aliasing probes",
-  "level_text": "Exploration: tens of thousands of generated histories (16 ops, noisy path spellings, child views, caller-side buffer reuse) are compared step by step with a plain tree model; passing means no divergence on the generated sample, not absence.",
-  "level_note": "Trusts the reference model in harness/fsmodel (DESIGN.md section 3) and rapid's generators; ops whose outcome the statement leaves open are skipped, error texts/order/times are never compared.",
-  "design_ref": "DESIGN.md 3, 4/C01"},
- "C02": {
-  "technique": "differential property testing (rapid): same generated history in lock-step on memory/disk/child-view backend pairs, results and trees compared; outside-precondition ops judged by containment predicate",
-  "level_text": "Exploration: generated precondition-respecting histories run on two backends at once, every result and the whole tree compared after each step; ops outside the preconditions must not panic and may only change addressed paths; host sentinels guard the disk root.",
-  "level_note": "Trusts the model only for gating preconditions; the verdict is the backend-vs-backend comparison. Real temp directories under TMPDIR are used.",
-  "design_ref": "DESIGN.md 4/C02"},
- "C03": {
-  "technique": "exhaustive small-alphabet path enumeration x all op forms x 18 view kinds, plus rapid-generated long paths and call sequences; containment oracle (parent tree outside the root unchanged, no outside content observable)",
-  "level_text": "Exploration with an exhaustive core: all paths up to 4 (disk 3) segments over {in,out,.,..,''} (thorough 6/5) for every op form and view kind, then random longer paths and sequences. Each call is judged by comparing the parent tree outside the view root before/after and by scanning every returned value for outside-only content.",
-  "level_note": "Trusts the fixture construction and the walker; escaping paths may be rejected or clamped (both accepted); removal of a view's own root is not judged.",
-  "design_ref": "DESIGN.md 4/C03"},
-}
+import checkcfg
+TEXTS = checkcfg.TEXTS
